@@ -19,6 +19,12 @@ _abort_raised = False
 def register_signal_handlers():
     signal.signal(signal.SIGINT, _terminate_handler)
     signal.signal(signal.SIGTERM, _terminate_handler)
+    # An ignored SIGCHLD is inherited from the process that started Conductor
+    # (daemons ignore it to avoid zombies). The kernel then reaps children by
+    # itself and the exit status of the programs Conductor runs (git, tar, the
+    # tasks) can no longer be retrieved - they would all seem to succeed.
+    if signal.getsignal(signal.SIGCHLD) == signal.SIG_IGN:
+        signal.signal(signal.SIGCHLD, signal.SIG_DFL)
 
 
 def _terminate_handler(sig, frame):
